@@ -1,8 +1,44 @@
-import re
-from re import _constants as K
-import t1_regex
+import re, _sre
+from re import _constants as K, _casefix
+
+_inv = None
+
+
+def _build():
+    global _inv
+    if _inv is None:
+        _inv = {}
+        for c in range(0x110000):
+            _inv.setdefault(_sre.unicode_tolower(c), []).append(c)
+    return _inv
+
+
+def closure(c):
+    """code points matched by the literal chr(c) under re.I|re.U (what sre_compile emits: LITERAL_UNI_IGNORE / IN_UNI_IGNORE)"""
+    inv = _build()
+    if not _sre.unicode_iscased(c):
+        return [c]
+    lo = _sre.unicode_tolower(c)
+    keys = {lo} | set(_casefix._EXTRA_CASES.get(lo, ()))
+    out = set()
+    for k in keys:
+        out.update(inv.get(k, [k]))
+    return sorted(out)
+
+
+def ranges(points):
+    out = []
+    for c in points:
+        if out and out[-1][1] == c - 1:
+            out[-1][1] = c
+        else:
+            out.append([c, c])
+    return [(a, b) for a, b in out]
 
 
 def members_ic(c):
-    """ranges matched by the literal chr(c) under re.I (unicode), as T1 computes them"""
-    return t1_regex.charset((K.LITERAL, c), int(re.I | re.U))
+    return ranges(closure(c))
+
+
+def cased_points():
+    return [c for c in range(0x110000) if _sre.unicode_iscased(c)]
